@@ -131,6 +131,19 @@ pub fn syntax_devs(literals: bool, ints: bool, attrs: bool, docs: bool) -> Vec<D
             }));
         }
     }
+    if attrs {
+        // attributes that are not strum's and carry no documentation text: every derive has to step over them
+        d.push(dev("syntax: #[doc(hidden)] / #[doc(alias = ..)] / #[allow(..)] on the variants", &["synforeign"], |s| {
+            if s.variants.is_empty() {
+                return false;
+            }
+            let n = s.variants.len();
+            s.variants[0].docs.insert(0, ("hidden".into(), crate::spec::DocForm::Marker));
+            s.variants[n - 1].docs.push(("alias = \"zz\"".into(), crate::spec::DocForm::Marker));
+            s.variants[n / 2].extra_attrs.push("#[allow(dead_code)]".into());
+            true
+        }));
+    }
     if docs {
         d.push(dev("syntax: block-docs", &["syndoc"], |s| {
             if !s.variants.iter().any(|v| v.docs.iter().any(|(t, f)| *f == crate::spec::DocForm::Comment && !t.is_empty())) {
